@@ -47,8 +47,9 @@ class SpliceLoop(LoopSpec):
         W, lit = cx.W, cx.W.lit
         e = cx.clock + 1
         r = cp(e, cx.node('ss_tag_orig'))
-        sb = lp.entry.locals['story_body'].t
-        idx = lp.entry.locals['story_body_index'].t
+        from .roles import found_nodes, enum_start
+        sb = found_nodes(lp.entry)[-1]
+        idx = enum_start(lp)
         x, q = z3.Consts('x!sp q!sp', Node)
         kk = z3.Int('k!sp')
         t = z3.Const('t!sp', Str)
